@@ -262,6 +262,13 @@ Theorem C19_source_file_loader_is_model : forall e repo name parent st,
 Proof. exact gen_get_pipeline_definition_is_model. Qed.
 Print Assumptions C19_source_file_loader_is_model.
 
+(** pypyr/moduleloader.py add_sys_path, statement by statement (in particular: a directory is
+    skipped only when EXACTLY that string is on sys.path already) *)
+Theorem C19_source_add_sys_path_is_model : forall e st p,
+  gen_add_sys_path (fun s => e_exists e (resolve (e_cwd e) s)) text_id st p = add_sys_path e st p.
+Proof. exact gen_add_sys_path_is_model. Qed.
+Print Assumptions C19_source_add_sys_path_is_model.
+
 (** pypyr/steps/pype.py get_arguments (loader / pyDir / resolveFromParent / parent) and the
     fields run_step passes on to the child Pipeline and to load_and_run_pipeline *)
 Theorem C19_source_pype_cascade_is_model : forall info o,
